@@ -5,7 +5,8 @@ import json, os, subprocess, sys, glob
 EXTRA = {"C01-m1": ["C12"], "C13-m2": ["C02"], "C12-m2": ["C08"], "C08-m2": ["C09"], "C09-m2": ["C08"], "C04-m2": ["C17"],
          "C03-m2": ["C02"], "C15-m2": ["C04"], "C04-m1": ["C15"], "C10-m2": [], "C16-m1": [], "C05-m2": ["C13"],
          "C12-m3": ["C08", "C09"], "C12-m4": ["C08", "C01"], "C13-m3": ["C03"], "C13-m4": ["C02"], "C11-m3": ["C09", "C10"], "C15-m3": ["C11"], "C19-m3": ["C09"],
-         "C13-m5": ["C03"], "C04-m5": ["C17"], "C03-m6": ["C14"], "C13-m6": ["C02"], "C10-m6": ["C08"], "C01-m5": ["C02"], "C01-m6": ["C08", "C12"], "C12-m5": ["C08"], "C05-m6": ["C01", "C12"]}
+         "C13-m5": ["C03"], "C04-m5": ["C17"], "C03-m6": ["C14"], "C13-m6": ["C02"], "C10-m6": ["C08"], "C01-m5": ["C02"], "C01-m6": ["C08", "C12"], "C12-m5": ["C08"], "C05-m6": ["C01", "C12"],
+         "C13-m8": ["C03"], "C03-m7": ["C13"], "C04-m8": ["C15"], "C09-m7": ["C08", "C12"], "C01-m7": ["C10"], "C01-m8": ["C08"], "C05-m7": ["C07"], "C07-m7": ["C05"]}
 only = sys.argv[1:]
 rows = []
 for d in sorted(glob.glob("/verif/seeded/C*")):
